@@ -44,7 +44,7 @@ func matchDescent(c *Ctx, rule string) {
 		c.Unresolved(rule, "match.Glob")
 		return
 	}
-	pathP := ssa.Value(upd.Params[2])
+	pathP := ssa.Value(param(upd, 2))
 	isElem0 := func(e *PPA, st *State, rv RV, of ssa.Value) bool {
 		r := e.Resolve(st, rv)
 		u, ok := r.V.(*ssa.UnOp)
@@ -231,7 +231,7 @@ func matchDescent(c *Ctx, rule string) {
 		recFns = []*ssa.Function{remQ}
 		f := addQ
 		c.Analysed(fnName(f))
-		qP, clP, recvP := ssa.Value(f.Params[1]), ssa.Value(f.Params[2]), ssa.Value(f.Params[0])
+		qP, clP, recvP := ssa.Value(param(f, 1)), ssa.Value(param(f, 2)), ssa.Value(param(f, 0))
 		qcls := func(e *PPA, st *State, rv RV) string {
 			r := e.Resolve(st, rv)
 			if call, ok := r.V.(*ssa.Call); ok {
@@ -318,8 +318,8 @@ func matchDescent(c *Ctx, rule string) {
 	// ---- addQuery / removeQuery: same key and suffix
 	for _, f := range recFns {
 		c.Analysed(fnName(f))
-		qP := ssa.Value(f.Params[1])
-		clP := ssa.Value(f.Params[2])
+		qP := ssa.Value(param(f, 1))
+		clP := ssa.Value(param(f, 2))
 		qcls := func(e *PPA, st *State, rv RV) string {
 			r := e.Resolve(st, rv)
 			if call, ok := r.V.(*ssa.Call); ok {
